@@ -269,6 +269,63 @@ def run_job(job, io):
         if violations and len(violations) >= 6:
             break
 
+    # ---- pairs of faults across two consecutive operations (residue interactions)
+    pairs_done = 0
+    if K > 0 and not violations:
+        op2 = tape.choice(OP_NAMES, 'op2')
+        fn2 = OPS[op2]
+        ev2 = []
+        U.HOOK = ev2.append
+        base_b = outcome(fn2, scn)
+        U.HOOK = None
+        labels_b = list(ev2)
+        if labels_b:
+            for _ in range(min(6, K)):
+                k1 = ks[tape.draw(len(ks), 'pair-k1')]
+                k2 = 1 + tape.draw(len(labels_b), 'pair-k2')
+                site = '%s@%s+%s@%s' % (opname, labels[k1 - 1], op2, labels_b[k2 - 1])
+                io.progress({'site': site, 'tape': tape.values})
+                inj1, inj2 = Injected(('pair', 1)), Injected(('pair', 2))
+                res = []
+                for f_, kk, inj in ((fn, k1, inj1), (fn2, k2, inj2)):
+                    c = [0]
+
+                    def hook(lab, c=c, kk=kk, inj=inj):
+                        c[0] += 1
+                        if c[0] == kk:
+                            raise inj
+                    U.HOOK = hook
+                    got = outcome(f_, scn)
+                    U.HOOK = None
+                    res.append('ok' if got[0] == 'ok' else ('same' if got[1] is inj else 'other:' + describe_outcome(got)))
+                    del got
+                    inj.__traceback__ = inj.__context__ = inj.__cause__ = None
+                pairs_done += 1
+                faults_fired['raise'] += 2
+                lab1, lab2 = labels[k1 - 1], labels_b[k2 - 1]
+                for r, lab in ((res[0], lab1), (res[1], lab2)):
+                    if r != 'same' and not (lab.endswith('key.__hash__') or lab.endswith('key.__eq__')):
+                        viol('pair-' + ('swallowed' if r == 'ok' else 'replaced'), site, 'second-order fault: outcomes %r' % (res,))
+                if V is not None:
+                    snap = V.snapshots()
+                    if snap.get('hash_running') or snap.get('repr_running') or V.held_locks():
+                        viol('guard-residue', site, 'residue after two consecutive failed calls: %r %r' % (snap, V.held_locks()))
+                if (hash(scn.spec), repr(scn.spec), hash(scn.prefix_spec), repr(scn.prefix_spec)) != spec_obs:
+                    viol('spec-changed', site, 'treespec hash/repr changed after two consecutive failed calls')
+                for f_, b_, labs in ((fn, base, labels), (fn2, base_b, labels_b)):
+                    ev = []
+                    U.HOOK = ev.append
+                    again = outcome(f_, scn)
+                    U.HOOK = None
+                    d = same_outcome(b_, again)
+                    if d or ev != labs:
+                        viol('after-effect', site, 'fault-free re-execution after two consecutive failed calls differs: %s (events %d vs %d)' % (d, len(ev), len(labs)))
+                    del again, ev
+                keys.add('pair|%s|%s|%s|%s' % (opname, lab1, op2, lab2))
+                if violations:
+                    break
+        del base_b
+
     # ---- malformed custom flatten returns
     malformed_checked = 0
     if any(isinstance(x, U.Node) for x in _walk_custom(scn)):
@@ -296,7 +353,7 @@ def run_job(job, io):
     dig = hashlib.sha256(repr((opname, labels, describe_outcome(base), [v['cls'] + v['site'] for v in violations], sorted(keys))).encode()).hexdigest()
     out = {'digest': dig, 'violations': violations, 'keys': sorted(keys), 'steps': steps + 2 * K, 'probes': probes,
            'faults_cfg': {k: 1 for k, v in faults_fired.items() if v}, 'faults_fired': faults_fired,
-           'sample': sample if job.get('i', 0) % 50 == 0 else None, 'extra': {'fault_points': len(ks), 'pairs_with_callbacks': int(K > 0)}}
+           'sample': sample if job.get('i', 0) % 50 == 0 else None, 'extra': {'fault_points': len(ks), 'pairs_with_callbacks': int(K > 0), 'fault_pairs': pairs_done}}
     if violations or job.get('_min') or job.get('_stream_tape'):
         out['tape'] = tape.values
         out['ops'] = ops_desc
